@@ -297,7 +297,8 @@ _side = {}
 
 def _load_side():
     if not _side:
-        p = os.path.join(RUN, PROP, 'c07_side.json')
+        import core as _core
+        p = os.path.join(RUN, PROP + ('_alt_%d' % os.getpid() if _core.ALT else ''), 'c07_side.json')
         _side.update(json.load(open(p)) if os.path.exists(p) else {})
         _side['__loaded__'] = 1
     return _side
